@@ -63,10 +63,14 @@ CHECKS['C09'] = {
                    'next entry; positional Put on an existing key may show the old value).'),
     'rule': ('Byte-decoded histories (<=150 ops, 30 kinds, keys 0..11 hashed to 3 buckets, two tables, three iterators forward/backward/at-key). Non-trivial: a mutation executed while a registered '
              'iterator was mid-table on that table, or the table\'s index width class (<=255, <=65535, larger) changed while an iterator was alive. Distinct: hash of decoded op bytes and profile.'),
-    'assumptions': ['OrderedKeysHashtable / OrderedValuesHashtable and String keys are exercised by the c09_ordered target'],
+    'assumptions': ['c09_ordered: the order among entries that compare equal in a sorted-by-value table, whether SwapContents carries the auto-sort setting, and whether an explicit Sort() keeps equal entries in place are not documented and not judged',
+                    'c09_ordered: positional operations (MoveToFront, PutBefore ...) are not applied to the auto-sorting variants (documented to disorder them until Sort()/Reposition())'],
     'targets': [
         {'name': 'c09_hashtable', 'src': ['harness/C09_hashtable.cpp'], 'quick_n': 500000, 'thorough_n': 8000000, 'maxlen': 700, 'min_nontrivial': 50000, 'budget': 60,
          'class_floors': {'case_mutation_with_iterator_mid_table': 50000, 'case_index_width_change_with_iterator_alive': 300, 'profile_256': 20000, 'profile_65536': 50}},
+        {'name': 'c09_ordered', 'src': ['harness/C09_ordered.cpp'], 'quick_n': 400000, 'thorough_n': 8000000, 'maxlen': 500, 'min_nontrivial': 50000, 'budget': 30,
+         'class_floors': {'flavour_OrderedKeysHashtable<int,int>': 50000, 'flavour_OrderedValuesHashtable<int,int>': 50000, 'flavour_OrderedKeysHashtable<String,String>': 20000, 'flavour_Hashtable<String,int>': 20000,
+                          'case_live_traversal_completed_and_judged': 5000, 'case_with_auto_sort_switched_off': 20000, 'case_sorted_by_value_with_equal_values': 20000}},
     ],
 }
 
